@@ -59,6 +59,16 @@ func (c *conn) receiveOpen(msg pmpx.Message) status.Status {
 		return mpxErrorf("received open message for existing channel, channel=%v", id)
 	}
 
+	// Check again, the channels can be closed concurrently.
+	// A channel added behind the sweep would never be freed, and its context never cancelled.
+	if c.channelsClosed.Load() {
+		ch.Free()
+		if ch1, deleted := c.channels.Delete(id); deleted {
+			ch1.free()
+		}
+		return statusConnClosed
+	}
+
 	// Start handler
 	h := newChannelHandler(c, ch)
 	workerPool.Run(h)
